@@ -1617,10 +1617,9 @@ class VM:
         if hasattr(func, "_original_func"):
             func = func._original_func
 
-        # Use existing invoke mechanism
-        self._invoke_js_function(func, args, this_val)
-        result = self._execute()
-        return result
+        # Run the callee until it returns (and only the callee: a nested main loop
+        # would go on to run the rest of the program on the host stack)
+        return self._call_callback(func, args, this_val)
 
     def _make_regexp_method(self, re: JSRegExp, method: str) -> Any:
         """Create a bound RegExp method."""
